@@ -93,6 +93,9 @@ def expect_ret(ctx: Ctx, fi: FuncInfo, o: Orient, want: str, what: str):
 
 
 def run(ctx: Ctx):
+    from .. import memo as _memo
+
+    ctx.section(_memo.check_memo_keys, ctx, ('types.',))
     repo = ctx.repo
     qint = repo.cls(f"{T}.qint.QintImp")
     qchar = repo.cls(f"{T}.qchar.Qchar")
